@@ -339,15 +339,124 @@ def check_metadata(ctx):
     m = prog.module("verif.input")
     f = prog.own_method(site)
     src = norm(f)
-    for key, attr, conv in (("variable:", "_variable_name", "' '.join(curr[1:])"), ("units:", "_variable_units", "' '.join(curr[1:])"),
-                            ("x0:", "_variable_x0", "float(curr[1])"), ("x1:", "_variable_x1", "float(curr[1])")):
-        frag = "curr[0] == '%s':\n" % key
-        ok = False
-        for st in ast.walk(f):
-            if isinstance(st, ast.If) and isinstance(st.test, ast.Compare) and norm(st.test) == "curr[0] == '%s'" % key:
-                body = [norm(x) for x in st.body]
-                ok = body == ["self.%s = %s" % (attr, conv)]
-        ctx.ob("C09.5", site, ok, "'# %s' sets %s" % (key, attr), msg="metadata line '%s' does not set self.%s = %s" % (key, attr, conv))
+    # semantic form of the metadata branch: for a row R of the file, with TOK = R[1:].split(),
+    #   self._variable_<a> is assigned under exactly the positive conditions  R[0] == '#'  and  TOK[0] == '<key>'
+    #   (negative conditions may only be the empty-line guard and the other keys), in every iteration of the row loop whatever the
+    #   earlier rows were, and the value is ' '.join(TOK[1:]) (name, units) or TOK[1] (x0, x1).
+    ev = trace.trace(prog, site)
+    metas = [e for e in trace.assigns(ev) if e["name"].startswith("self._variable_") and e["loops"]]
+    ctx.need(metas, "%s: no metadata assignments inside the row loop" % site)
+
+    def eq_str(c):
+        at = c.as_atom() if isinstance(c, Rat) else None
+        if at is None or at.func != "cmp_eq" or not isinstance(at.args[0], Rat):
+            return None
+        ats = at.args[0].atoms(deep=False)
+        strs = [a for a in ats if a.func.startswith("str:")]
+        others = [a for a in ats if not a.func.startswith("str:")]
+        if len(strs) == 1 and len(others) == 1:
+            return others[0], strs[0].func[5:-1]
+        if not strs and len(others) == 1:
+            return others[0], None
+        return None
+
+    def row_of(c):
+        r = eq_str(c)
+        if r is None or r[1] != "#" or r[0].func != "getitem" or not isinstance(r[0].args[0], Rat):
+            return None
+        row = r[0].args[0].as_atom()
+        return row if row is not None and row.func.startswith("elem#") and isinstance(r[0].args[1], Rat) and r[0].args[1].const_value() == 0 else None
+
+    def is_tok(x, row):
+        """x == row[1:].split()"""
+        at = x.as_atom() if isinstance(x, Rat) else None
+        if at is None or at.func != "m:split" or len(at.args) != 1 or not isinstance(at.args[0], Rat):
+            return False
+        g = at.args[0].as_atom()
+        return g is not None and g.func == "getitem" and isinstance(g.args[0], Rat) and g.args[0].as_atom() is row and \
+            isinstance(g.args[1], tuple) and tuple(str(z) for z in g.args[1]) == ("slice", "1", "None", "None")
+
+    def classify(e, conds, row):
+        """None if the conditions are exactly the metadata pattern for `row`, else a description of the deviation."""
+        pos_keys, hash_ok = [], False
+        for c, pol in conds:
+            r = eq_str(c)
+            if r is not None and r[1] == "#" and row_of(c) is row:
+                if not pol:
+                    return "reached on rows that do not start with '#'"
+                hash_ok = True
+                continue
+            if r is not None and r[0].func == "getitem" and is_tok(r[0].args[0], row) and isinstance(r[0].args[1], Rat) and r[0].args[1].const_value() == 0 \
+                    and r[1] is not None:
+                if pol:
+                    pos_keys.append(r[1])
+                continue
+            if r is not None and r[1] is None and r[0].func == "len" and is_tok(r[0].args[0], row) and not pol:
+                continue
+            return "additionally conditional on %s being %s" % (str(c)[:90], pol)
+        if not hash_ok:
+            return "not conditional on the row starting with '#'"
+        return None if len(pos_keys) == 1 else "keys %s" % pos_keys, pos_keys
+
+    def value_ok(attr, v, row):
+        at = v.as_atom() if isinstance(v, Rat) else None
+        if at is None:
+            return False
+        if attr in ("_variable_name", "_variable_units"):
+            if at.func != "m:join" or len(at.args) != 2 or not isinstance(at.args[1], Rat):
+                return False
+            sep = at.args[0].as_atom() if isinstance(at.args[0], Rat) else None
+            g = at.args[1].as_atom()
+            return sep is not None and sep.func == "str:' '" and g is not None and g.func == "getitem" and is_tok(g.args[0], row) and \
+                isinstance(g.args[1], tuple) and tuple(str(z) for z in g.args[1]) == ("slice", "1", "None", "None")
+        return at.func == "getitem" and is_tok(at.args[0], row) and isinstance(at.args[1], Rat) and at.args[1].const_value() == 1
+
+    first = metas[0]
+    row1 = None
+    for c, pol in first["conds"]:
+        row1 = row_of(c)
+        if row1 is not None:
+            break
+    ctx.need(row1 is not None and row1.func == "elem#1", "%s: the row symbol of the first iteration was not identified" % site)
+    row2 = form.apply("elem#2", list(row1.args)).as_atom()
+    for key, attr in (("variable:", "_variable_name"), ("units:", "_variable_units"), ("x0:", "_variable_x0"), ("x1:", "_variable_x1")):
+        evs = [e for e in metas if e["name"] == "self." + attr]
+        it1 = [e for e in evs if e["iter"] == (1,)]
+        it2 = [e for e in evs if e["iter"] == (2,)]
+        problems = []
+        for e in it1:
+            r = classify(e, e["conds"], row1)
+            if r is None or isinstance(r, str):
+                problems.append((e, r or "?"))
+            elif r[0] is not None or r[1] != [key]:
+                problems.append((e, "set for key(s) %s instead of '%s'" % (r[1], key)))
+            elif not value_ok(attr, e["value"], row1):
+                problems.append((e, "value is %s" % str(e["value"])[:100]))
+        after_data = 0
+        for e in it2:
+            # the conditions added in the second iteration start at the first one about row 2
+            idx = [i for i, (c, pol) in enumerate(e["conds"]) if row_of(c) is row2]
+            if not idx:
+                problems.append((e, "second row: not conditional on the row starting with '#'"))
+                continue
+            r = classify(e, e["conds"][idx[0]:], row2)
+            if isinstance(r, str) or r is None:
+                problems.append((e, "on a later row: " + (r or "?")))
+            elif r[0] is not None or r[1] != [key]:
+                problems.append((e, "on a later row: set for key(s) %s" % r[1]))
+            elif not value_ok(attr, e["value"], row2):
+                problems.append((e, "on a later row: value is %s" % str(e["value"])[:100]))
+            pre = e["conds"][:idx[0]]
+            if any(row_of(c) is row1 and not pol for c, pol in pre):
+                after_data += 1
+        if not it1:
+            problems.append((None, "never set from a '# %s' line" % key))
+        elif not after_data:
+            problems.append((it1[0], "not set when the '# %s' line comes after the header or a data row (metadata lines are honoured only at the top of the file)" % key))
+        ctx.ob("C09.5", site, not problems, "'# %s' sets %s from the rest of the line, on any line of the file" % (key, attr),
+               loc=prog.loc(m, problems[0][0]["node"]) if problems and problems[0][0] else None,
+               msg="metadata line '# %s': %s" % (key, "; ".join(p_[1] for p_ in problems[:2])),
+               sample={"rule": "C09.5", "key": key, "events": len(evs)})
     gv = prog.own_method("verif.input.Text._get_variable")
     outs = [o for o in symeval.Evaluator(m).run(gv) if o.kind == "return"]
     want = form.apply("call:verif.variable.Variable", [S("self._variable_name"), S("self._variable_units")], {"x0": S("self._variable_x0"), "x1": S("self._variable_x1")})
